@@ -245,7 +245,9 @@ def real_loop(ds, desc, ignore, method, path):
                 # exactly as reported: tuples of values together with the reported argument order
                 h.harvest_cases([tuple(c) for c in miss0], fn_args=tuple(fa0), verbosity=0, overwrite=ow)
             else:
-                h.harvest_cases([dict(zip(fa0, c)) for c in miss0], verbosity=0, overwrite=ow)
+                # as mappings; every other one spells its keys in the opposite order (a mapping has no order)
+                h.harvest_cases([dict(zip(fa0, c)) if k % 2 == 0 else dict(reversed(list(zip(fa0, c))))
+                                 for k, c in enumerate(miss0)], verbosity=0, overwrite=ow)
         ds1 = h.full_ds.load()
         fa1, miss1 = find_missing_cases(ds1, set(ignore), method)
         py = lambda cs: [[x.item() if hasattr(x, "item") else x for x in c] for c in cs]   # noqa
